@@ -473,7 +473,8 @@ func c04ScalarCase(t *rapid.T, ev *evProp, gi *GroupInfo) {
 const c04Rule = "case = (group, byte string) with the string drawn from {random of the exact size, random of size 0..2*size+40, all-00/all-ff of boundary sizes, a valid encoding, 1-3 bit flips / byte edits / truncation / extension of a valid encoding, empty, " +
 	"structure-aware hostile inputs: coordinate =p,p+k,p-1,0,±1,max; Ed25519 y in [p,2^255) with either sign, sign flips, small-order points; P-256 format bytes and tiny coordinates; every BLS12-381 flag combination, dirty infinity, curve points outside the prime-order subgroup built with the Fp/Fp2 model; QR-512 0,1,P-1,P,P+1,non-residues; scalars q+k}; " +
 	"decoded through UnmarshalBinary or UnmarshalFrom. Oracle: no panic; input not modified; if accepted: 10 further operations do not panic, the re-encoding denotes a member of the promised set according to the math/big models (curve equation over Fp/Fp2, r*P=O for BLS12-381 G1/G2, Euler criterion for QR-512), and decoding the re-encoding gives an Equal value. " +
-	"non-trivial = the input has exactly the expected size (reaches the arithmetic checks) or was accepted; distinct = distinct (group, input)"
+	"non-trivial = the input has exactly the expected size (reaches the arithmetic checks) or was accepted; distinct = distinct (group, input)" +
+	" Added after the sensitivity rounds: receivers of the decoders are fresh, used or arithmetic results; an accepted value must encode like p+O; composite parsers additionally get every prefix, every suffix and every single byte forced to 00/ff of their honest message (thorough: every bit), and VSS deals are sent as arbitrary PLAINTEXT through the genuine sealed transport (verif hook)."
 
 func TestC04_Decode(t *testing.T) {
 	ev := evFor("C04")
